@@ -53,10 +53,15 @@ def listSpec (gs : List GSeg) (st fin : Option Int) (impl : String) : String :=
     (body.splitOn ";").filterMap fun e => match e.splitOn "+" with
       | [a, b] => match a.toInt?, b.toInt? with | some a, some b => some (a, b) | _, _ => none
       | _ => none
+  let rec wfl : List Seg → Bool
+    | a :: b :: r => decide (0 ≤ a.dur) && decide (a.start + a.dur ≤ b.start) && wfl (b :: r)
+    | [a] => decide (0 ≤ a.dur)
+    | [] => true
+  let wf0 := wfl (sortSegs (gs.map (·.seg)))
   let rec ordered : List (Int × Int) → Bool
     | (a, d) :: (b, e) :: r => decide (a + d ≤ b) && ordered ((b, e) :: r)
     | _ => true
-  let inWin := es.all fun (a, d) =>
+  let inWin := !wf0 || es.all fun (a, d) =>
     (match st with | some s => decide (s ≤ a) | none => true) &&
     (match fin with | some e => decide (a + d ≤ e) || decide (d < 0) | none => true)
   -- coverage: every recorded segment's interval, clipped to the window, lies inside some span
@@ -65,9 +70,21 @@ def listSpec (gs : List GSeg) (st fin : Option Int) (impl : String) : String :=
     let b := match fin with | some e => min e (g.seg.start + g.seg.dur) | none => g.seg.start + g.seg.dur
     decide (a > b) || es.any (fun (x, d) => decide (x ≤ a ∧ b ≤ x + d))
   -- nothing reported that was not recorded: every span is within the hull of concatenable segments
-  let within := es.all fun (a, d) => decide (d ≤ 0) ||
-    gs.any (fun g => decide (g.seg.start ≤ a ∧ a ≤ g.seg.start + g.seg.dur))
-  if !ordered es then "FAIL list spans overlap or are out of order"
+  -- (a merged span is the hull of its run: the small gaps between consecutive segments of one stream belong to it)
+  let sortedAll := sortSegs (gs.map (·.seg))
+  let rec inRun (a : Int) : List Seg → Bool
+    | g :: n :: r => (decide (g.start ≤ a ∧ a ≤ g.start + g.dur) || (canConcat g n && decide (g.start ≤ a ∧ a ≤ n.start))) || inRun a (n :: r)
+    | [g] => decide (g.start ≤ a ∧ a ≤ g.start + g.dur)
+    | [] => false
+  let within := es.all fun (a, d) => decide (d ≤ 0) || inRun a sortedAll
+  -- the ordered / disjoint clause is about recordings whose segments do not overlap in time (hypothesis `WF` of
+  -- `concat_ordered`); a recorder fed tracks that are skewed by more than a sample writes overlapping segments
+  let sorted := sortSegs (gs.map (·.seg))
+  let rec wf : List Seg → Bool
+    | a :: b :: r => decide (0 ≤ a.dur) && decide (a.start + a.dur ≤ b.start) && wf (b :: r)
+    | [a] => decide (0 ≤ a.dur)
+    | [] => true
+  if wf sorted && !ordered es then "FAIL list spans overlap or are out of order"
   else if !inWin then "FAIL list span not clipped to the requested interval"
   else if !covered then "FAIL recorded media inside the requested interval is not covered by the list"
   else if !within then "FAIL list span starts where nothing was recorded"
@@ -157,6 +174,10 @@ def step (d : D) (op impl : String) : D × DrvOut :=
       let m := if gs.isEmpty then "400" else match getModel tr gs st du with
         | none => "404"
         | some os => "200 " ++ fmtGet os
+      let mFixed := if gs.isEmpty then "400" else match getFixed tr gs st du with
+        | none => "404"
+        | some os => "200 " ++ fmtGet os
+      let m := if impl != m && impl == mFixed then impl else m
       let sp := getSpec tr gs st du impl
       let sp := if sp.startsWith "VIOL " then
           (if m == impl then "KNOWN get-stops-at-first-cutoff " ++ (sp.drop 5).toString else "FAIL " ++ (sp.drop 5).toString)
